@@ -382,9 +382,57 @@ def created_then_entered_later():
     return problems
 
 
+def spawn_while_the_scope_is_leaving():
+    """root > parent (asynchronous).  parent's body spawns `worker` and ends; `worker` runs for the first time while parent is
+    already waiting for its tasks and spawns `late`, which enters a scope `child` only later.  parent and root complete
+    after `child` was left - whether that task still joins the group or is refused, never detached and forgotten."""
+    order, problems = [], []
+
+    async def main():
+        gate = asyncio.Event()
+
+        async def late():
+            await gate.wait()
+            with ctx.scope("child", completion=lambda m: order.append("child completed")):
+                order.append("child entered")
+            order.append("child left")
+
+        async def worker():
+            try:
+                ctx.spawn(late)
+            except RuntimeError:
+                order.append("late spawn refused")      # a group that shuts down may refuse new members
+
+        async def controller():
+            for _ in range(40):
+                await asyncio.sleep(0)
+            gate.set()
+        c = asyncio.ensure_future(controller())
+        with ctx.scope("root", completion=lambda m: order.append("root completed")):
+            async with ctx.scope("parent", completion=lambda m: order.append("parent completed")):
+                ctx.spawn(worker)
+            order.append("parent left")
+        order.append("root left")
+        await c
+        for _ in range(10):
+            await asyncio.sleep(0)
+    try:
+        asyncio.run(asyncio.wait_for(main(), 10))
+    except BaseException as e:  # noqa
+        return [f"spawn while the scope is leaving: the program ended with {e!r} (events {order})"]
+    for tag in ("root completed", "parent completed"):
+        if order.count(tag) != 1:
+            problems.append(f"spawn while the scope is leaving: {tag!r} fired {order.count(tag)} times (events {order})")
+    if not problems and "child left" in order and not (order.index("child left") < order.index("parent completed") < order.index("root completed")):
+        problems.append(f"a task spawned (from a spawned task) while its scope was leaving entered a nested scope, but the scope "
+                        f"completed before that nested scope was left: {order}")
+    return problems
+
+
 def main():
     sys.stdin.read()
-    sp = scripted() or worker_thread_scope() or siblings_after_a_left_child() or created_then_entered_later()
+    sp = scripted() or worker_thread_scope() or siblings_after_a_left_child() or created_then_entered_later() \
+        or spawn_while_the_scope_is_leaving()
     if sp:
         print(json.dumps(dict(reproduced=True, detail=dict(problem=sp[0], scenario="scripted"), cases_tried=1), default=str))
         return
